@@ -55,6 +55,7 @@ Theorem C03_fixpoint_two : forall sc1 sc2 c0,
   fix_opts sc2 = true ->
   map l_id (sc_local sc2) = map l_id (sc_local sc1) ->
   (o_prune (sc_opts sc2) = true -> o_prune (sc_opts sc1) = true) ->
+  sc_univ sc2 = sc_univ sc1 ->
   fix_ok (out_final (run sc1 c0)) (run sc2 (out_final (run sc1 c0))) = true.
 Proof. exact (fixpoint_two monitor_C03). Qed.
 
@@ -68,7 +69,7 @@ Theorem C03_fixpoint_requests : forall sc c0,
 Proof. exact (fixpoint_no_create_delete monitor_C03). Qed.
 
 Theorem C03_fixpoint_monitor : forall sc1 sc2 c0,
-  WF sc1 c0 -> pl_invalid (plan_of sc1 c0) = [] -> NoDup (prev_of c0) ->
+  WF sc1 c0 -> pl_invalid (plan_of sc1 c0) = [] -> NoDup (prev_of c0) -> sc_univ sc2 = sc_univ sc1 ->
   c03_fixpoint c0 [(sc1, run sc1 c0); (sc2, run sc2 (out_final (run sc1 c0)))] = true.
 Proof. exact (fixpoint_monitor monitor_C03). Qed.
 
